@@ -33,12 +33,13 @@ var _ = hpack.NewDecoder
 func TestSim(t *testing.T) {
 	opt := simrt.Options{MaxSteps: 400000}
 	simrt.Main(t, map[string]simrt.Prop{
-		"C38": {Run: runResp("C38"), Opt: opt},
-		"C34": {Run: runResp("C34"), Opt: opt},
-		"C33": {Run: runInflow, Opt: opt},
-		"C35": {Run: runState("C35"), Opt: opt},
-		"C36": {Run: runState("C36"), Opt: opt},
-		"C37": {Run: runFlood, Opt: simrt.Options{MaxSteps: 3000000}},
+		"C38":   {Run: runResp("C38"), Opt: opt},
+		"C34":   {Run: runResp("C34"), Opt: opt},
+		"C33":   {Run: runInflow, Opt: opt},
+		"C35":   {Run: runState("C35"), Opt: opt},
+		"C36":   {Run: runState("C36"), Opt: opt},
+		"C25h2": {Run: runC25h2, Opt: opt},
+		"C37":   {Run: runFlood, Opt: simrt.Options{MaxSteps: 3000000}},
 	})
 }
 
@@ -143,6 +144,7 @@ type h2eng struct {
 	connCap                                                  int64 // the connection receive window the server started with (C33)
 	outq                                                     []func()
 	resetDone                                                map[uint32]bool
+	customHandler                                            func(w http.ResponseWriter, r *http.Request)
 	syncSeen                                                 int
 	queuePeak                                                int
 	violationSent, sendersDone, holdAll, violationImpossible bool
@@ -591,6 +593,10 @@ type hplan struct {
 }
 
 func (e *h2eng) serveHTTP(w http.ResponseWriter, r *http.Request) {
+	if e.customHandler != nil {
+		e.customHandler(w, r)
+		return
+	}
 	p := e.byPath[r.URL.Path]
 	if p == nil {
 		e.s.Note("handler", fmt.Sprintf("request for unplanned path %q method %q host %q", r.URL.Path, r.Method, r.Host))
